@@ -24,8 +24,18 @@ import concurrent.futures as cf
 from vlib.core import run_cmd, VERIF
 from vlib.build import BuildError
 
+from tools.gen import loop as gen_loop
+from tools.gen.csrc import ExtractError
+
 sys.path.insert(0, os.path.join(VERIF, "harness", "C20"))
 import gen as c20gen  # noqa: E402
+
+THEOREMS = ["JanetModel.Props.C20." + t for t in (
+    "done_expr_match", "counter_sites_match", "poll_phase_match", "root_sites_match",
+    "step_inv", "run_inv", "listener_count_inv", "no_premature_exit", "no_hang_when_idle", "loopDone_iff_idle",
+    "null_event_keeps_loop_alive", "collected_suspended_task_keeps_count",
+    "dropStale_all_stale", "dropStale_head_live", "dropStale_sublist", "stale_timers_cannot_keep_loop_alive", "pollPrelude_counters",
+    "roots_balanced", "tchanLeaked_zero", "roots_balanced_released", "tchan_root_never_released", "gc_listener_leaves_stream_root")]
 
 ENV = dict(os.environ, ASAN_OPTIONS="detect_leaks=0:abort_on_error=0", UBSAN_OPTIONS="print_stacktrace=1")
 SCRATCH = "/var/tmp/janet-verif-c20"
@@ -162,11 +172,106 @@ def run_mix(hx, rng, ntasks, idx, kinds=None):
     return {"idx": idx, "src": src, "expect": expect, "chosen": chosen, "probs": probs, "info": info, "out": out, "rc": rc, "err": err[-2000:]}
 
 
+# ------------------------------------------------------------------------------------------------ model correspondence
+
+TCALL = {"await": "await", "nofiber": "nofiber", "proc": "procwait"}
+DELIVER = {"await": "dawait", "nofiber": "dnofiber", "proc": "dproc", "chan": "dchan", "posted": "dposted", "null": "dnull"}
+
+
+def model_lines(out):
+    """harness log -> (protocol lines for jm_c20, [(line index of the `snap`, parsed S record)])"""
+    lines, snaps, unknown = ["reset"], [], []
+    for l in out.splitlines():
+        if l.startswith("S "):
+            f = l.split()
+            snaps.append((len(lines), int(f[1]), f[2], _kv(f[3:])))
+            lines.append("snap")
+            continue
+        if not l.startswith("E "):
+            continue
+        f = l.split()
+        k = f[1]
+        if k in ("sched", "pop"):
+            lines.append("%s %s" % (k, f[2][1:]))
+        elif k == "ran":
+            lines.append("ran %s %s" % (f[2][1:], "s" if f[3] == "suspended" else "f"))
+        elif k == "gcfiber":
+            lines.append("gcfiber %s" % f[2][1:])
+        elif k in ("astart", "aend"):
+            lines.append(k)
+        elif k == "extdec":
+            lines.append("gclistener")
+        elif k == "tcall":
+            lines.append(TCALL.get(f[2], "unknown-tcall"))
+        elif k == "deliver":
+            lines.append(DELIVER.get(f[2], "unknown-deliver"))
+        elif k == "post":
+            lines.append("post " + f[2])
+        elif k == "root":
+            if f[2] in ("janet_channel_push_with_lock", "janet_channel_pop_with_lock"):
+                lines.append("tchanpend")
+            elif f[2] != "janet_ev_threaded_await":
+                lines.append("unknown-root " + f[2])
+        elif k == "unroot":
+            if f[2] in ("cfun_channel_close", "janet_chan_deinit"):
+                if f[3] == "1":
+                    lines.append("tchandirect")
+            elif f[2] not in ("janet_ev_default_threaded_callback", "janet_thread_chan_cb"):
+                lines.append("unknown-unroot " + f[2])
+        elif k in ("tadd", "tpop"):
+            lines.append("%s %s %s" % (k, f[2][1:], "d" if f[3] == "deadline" else "t"))
+        elif k in ("step", "poll", "run"):
+            pass
+        else:
+            lines.append("unknown-event " + k)
+    return lines, snaps
+
+
+def compare_model(lines, snaps, mout):
+    """mout: driver output lines for `lines`.  -> list of differences (empty = model and implementation agree at every step)"""
+    diffs = []
+    for i, (l, o) in enumerate(zip(lines, mout)):
+        if o.startswith("invalid") or o.startswith("unknown"):
+            diffs.append("event #%d `%s`: model says %s" % (i, l, o))
+            if len(diffs) > 3:
+                return diffs
+    roots0 = snaps[0][3]["roots"] if snaps else 0
+    for idx, n, tag, s in snaps:
+        m = _kv(mout[idx].split())
+        exp = {"lc": s["lc"], "tq": s["tq"], "rq": s["rq"], "roots": s["roots"] - roots0, "susp": s["susp"], "lis": s["lis"],
+               "pipecalls": s["inpipe"] + s["calls"], "done": s["done"]}
+        bad = {k: (m.get(k), v) for k, v in exp.items() if m.get(k) != v}
+        if bad:
+            diffs.append("step %d (%s): (model, implementation) differ in %s" % (n, tag, bad))
+            if len(diffs) > 3:
+                break
+    return diffs
+
+
 # ------------------------------------------------------------------------------------------------ run
 
 def run(ctx):
     quick = ctx.tier == "quick"
     broken = []
+    # (A) regenerate the tables the theorems are stated about
+    try:
+        ctx.build.boot()
+        ctx.gen("Loop.lean", gen_loop.render(ctx.build.tree))
+        gen_facts = gen_loop.extract(ctx.build.tree)
+    except ExtractError as e:
+        gen_facts = None
+        broken.append("translator tools/gen/loop.py: %s" % e)
+        ctx.broken.append(broken[-1])
+    except BuildError as e:
+        ctx.violation("build-failed", {"kind": "build", "error": str(e)[-3000:]}, found=False, what="tree does not build")
+        return ctx.finish("proof", {"evaluations": 0, "distinct_nontrivial": 0, "rule": "-", "samples": []})
+    # (B,C) kernel check + axiom audit
+    broken += ctx.obligations("JanetModel.Props.C20", THEOREMS)
+    if not quick:
+        ok, log = ctx.leanchecker("JanetModel.Props.C20")
+        if not ok:
+            broken.append("leanchecker JanetModel.Props.C20: " + log[-300:])
+    exe = ctx.driver()
     try:
         ctx.build.variant("asan")
         hx = ctx.build.harness("asan", "c20loop", [os.path.join(VERIF, "harness/C20/c20loop.c")])
@@ -222,8 +327,50 @@ def run(ctx):
             ctx.violation(sig, {"kind": "mix", "source": m["src"], "expect": m["expect"], "tasks": m["chosen"], "problems": m["probs"],
                                 "stdout_tail": m["out"][-3000:], "stderr_tail": m["err"]}, what="task mix #%d: %s" % (m["idx"], what))
 
+    # ---------------- (D) correspondence: the Lean model replays the semantic event log of every mix and must agree with the
+    # real counters after every janet_loop1 step
+    corr_events = corr_snaps = 0
+    corr_diffs = []
+    if exe:
+        all_lines, spans = [], []
+        for m in mixes:
+            lines, snaps = model_lines(m["out"])
+            spans.append((len(all_lines), len(lines), snaps, m))
+            all_lines += lines
+        mout = ctx.model(all_lines + ["cfg"], exe=exe)
+        for off, n, snaps, m in spans:
+            d = compare_model(all_lines[off:off + n], snaps, mout[off:off + n])
+            corr_events += n
+            corr_snaps += len(snaps)
+            if d:
+                corr_diffs.append((m, d))
+        if corr_diffs:
+            m, d = corr_diffs[0]
+            broken.append("correspondence model/implementation: %d of %d mixes differ; first (mix #%d): %s" % (len(corr_diffs), len(mixes), m["idx"], d[0]))
+            ctx.broken.append(broken[-1])
+    # the generated flag says the threaded-channel root is never released: the model proves the leak (tchan_root_never_released);
+    # the cycles above show it on the implementation
+    if gen_facts and not gen_facts["tchan_unroot"]["cb"] and not any(v["name"].startswith("thread-chan") and v["leaks"] for v in cyc):
+        broken.append("Gen.Loop.tchanUnrootCb = false (theorem tchan_root_never_released applies) but no thread-chan cycle leaked roots")
+
     if broken and not ctx.nviol:
-        ctx.violation("broken:" + broken[0][:80], {"kind": "broken-obligation", "broken": broken}, found=False,
+        # something in A-D no longer checks and the standard sweep found no failing input: search harder before giving up
+        extra = []
+        for i in range(200 if quick else 1000):
+            r = ctx.rng.fork("extra-mix/%d" % i)
+            extra.append((r, r.range(6, 16), 10000 + i))
+        with cf.ThreadPoolExecutor(12) as ex:
+            for m in ex.map(lambda j: run_mix(hx, *j), extra):
+                for sig, what in m["probs"]:
+                    if sig not in seen_sigs:
+                        seen_sigs.add(sig)
+                        ctx.violation(sig, {"kind": "mix", "source": m["src"], "expect": m["expect"], "tasks": m["chosen"], "problems": m["probs"],
+                                            "stdout_tail": m["out"][-3000:], "stderr_tail": m["err"], "broken": broken},
+                                      what="(after %s) task mix #%d: %s" % (broken[0][:80], m["idx"], what))
+    if broken and not ctx.nviol:
+        ctx.violation("broken:" + broken[0][:80], {"kind": "broken-obligation", "broken": broken,
+                                                   "first_diff_mix": (corr_diffs[0][0]["src"] if corr_diffs else None),
+                                                   "first_diffs": (corr_diffs[0][1] if corr_diffs else None)}, found=False,
                       what="no longer shown to hold: " + "; ".join(broken)[:600])
     cov = {
         "evaluations": sum(v["N"] * 2 + v["params"]["warm"] for v in cyc) + total_steps,
@@ -235,10 +382,15 @@ def run(ctx):
         "cycle_kinds": {v["name"]: v["N"] for v in cyc},
         "cycle_leaks": {v["name"]: sorted(v["leaks"]) or v["fail"] for v in leaking},
         "mixes": len(mixes), "mix_steps": total_steps, "mix_task_kinds": kinds_hit,
+        "correspondence_events": corr_events, "correspondence_steps_compared": corr_snaps, "correspondence_mixes_differing": len(corr_diffs),
+        "generated": {"tchan_unroot": gen_facts["tchan_unroot"], "counter_sites": len(gen_facts["counter"]), "root_sites": len(gen_facts["roots"])} if gen_facts else None,
     }
     return ctx.finish("proof", cov, assumptions=[
         "descriptor / child / zombie counts read from /proc; heap blocks and roots from janet_vm after two forced collections",
         "leak criterion: growth between the N and 2N plateaus >= max(3, N/10), i.e. at least one unit per ten cycles",
+        "model: bookkeeping level (counters, flags, queues as lists); the ops a fiber performs and the order of completions are inputs",
+        "semantic events are captured by function-like macros around calls ev.c makes (pthread_create, read, write, janet_gcroot, "
+        "janet_continue_signal, epoll_wait) and by diffing the run queue / timer heap between them; ev.c itself is unmodified",
         "kernel, libc, pthreads outside the model",
     ])
 
